@@ -1,9 +1,11 @@
 package main
 
 import (
+	"context"
 	"fmt"
 	"runtime"
 	"strings"
+	"time"
 
 	"github.com/creachadair/jrpc2"
 	"verif/vs"
@@ -486,6 +488,100 @@ func c06ReleaseRace(n int, b Bounds) *Scenario {
 	}
 }
 
+// c06Deadline: the request contexts come from ServerOptions.NewContext and end by DEADLINE (not by
+// cancellation) while a call waits for the only slot: the waiter is answered with an error, its
+// handler never runs, and the limit holds throughout.
+func c06Deadline(n int, b Bounds) *Scenario {
+	return &Scenario{
+		Name:   fmt.Sprintf("N=%d: a call whose context has already passed its deadline arrives while every slot is busy", n),
+		Params: map[string]any{"limit": n, "context_ends_by": "deadline (context.DeadlineExceeded)"},
+		Bounds: b,
+		New: func() *Instance {
+			var tokens []string
+			for i := 0; i < n; i++ {
+				tokens = append(tokens, "g")
+			}
+			tokens = append(tokens, "c")
+			h := &seqHarness{msgs: buildSeq(tokens), gates: NewGates()}
+			waiter := h.msgs[n].Members[0]
+			body := func() {
+				lib, peer, _ := NewPipe(PipeOpts{Name: "srv", CloseUnblocksRecv: true})
+				// the first n requests get a context that never ends, the next one a context whose deadline has
+				// passed already (a standard library context: no timer is involved once the deadline is in the past)
+				expired, cancelExpired := context.WithDeadline(context.Background(), time.Unix(1, 0))
+				defer cancelExpired()
+				nctx := 0
+				srv := jrpc2.NewServer(anyAssigner{h.handler()}, &jrpc2.ServerOptions{Concurrency: n, NewContext: func() context.Context {
+					nctx++
+					if nctx > n {
+						return expired
+					}
+					return context.Background()
+				}})
+				srv.Start(lib)
+				for _, ms := range h.msgs[:n] {
+					peer.Send([]byte(ms.JSON))
+				}
+				vs.AwaitQuiescence() // the gated calls hold every slot
+				peer.Send([]byte(h.msgs[n].JSON))
+				vs.AwaitQuiescence()
+				vs.Note("quiet", "after-deadline")
+				for _, ms := range h.msgs[:n] {
+					h.gates.Open(ms.Members[0].Method)
+				}
+				vs.AwaitQuiescence()
+				peer.Close()
+				srv.WaitStatus()
+			}
+			check := func(x *vs.Exec) []Viol {
+				v := genericRules(x, nil)
+				running := 0
+				for _, e := range x.Log {
+					switch e.K {
+					case "h_enter":
+						running++
+						Hit("C06.R1")
+						if running > n {
+							v = append(v, Viol{"C06.R1", fmt.Sprintf("%d handlers executing with Concurrency %d", running, n)})
+						}
+						if e.Arg(0) == waiter.Method {
+							Hit("C06.R3")
+							v = append(v, Viol{"C06.R3", "the handler of the call whose context ended while it waited for a slot was run"})
+						}
+					case "h_exit":
+						running--
+					}
+				}
+				if x.Outcome != "ok" {
+					return v
+				}
+				Hit("C06.R3")
+				q := findEv(x, 0, "quiet", "after-deadline")
+				answered := false
+				for _, o := range outEvents(x, "srv") {
+					ms, _, _ := parseRecord([]byte(o.Raw))
+					for _, m := range ms {
+						if m.ID() == waiter.ID {
+							answered = true
+							if !m.Has("error") {
+								v = append(v, Viol{"C06.R3", "the call whose context ended while waiting was answered with a result: " + string(m.Raw)})
+							}
+							if o.At > q {
+								v = append(v, Viol{"C06.R3", "the waiting call was answered only after a slot became free, not when its context ended"})
+							}
+						}
+					}
+				}
+				if !answered {
+					v = append(v, Viol{"C06.R3", "the call whose context ended while waiting was never answered"})
+				}
+				return v
+			}
+			return &Instance{Body: body, Check: check}
+		},
+	}
+}
+
 func c06Scenarios(tier string) []*Scenario {
 	var out []*Scenario
 	maxN, b := 2, Bounds{2, -1, 0}
@@ -511,6 +607,7 @@ func c06Scenarios(tier string) []*Scenario {
 		out = append(out, c06Gated(n, 2, false, true, n, Bounds{b.P - 1, -1, 0}))
 	}
 	out = append(out, c06Cancel(true, b), c06Cancel(false, b))
+	out = append(out, c06Deadline(1, Bounds{1, -1, 0}), c06Deadline(2, Bounds{1, -1, 0}))
 	out = append(out, c06GatedY(1, 2, false, false, 1, false, true, Bounds{1, -1, 0}), c06GatedY(2, 3, true, false, 2, false, true, Bounds{1, -1, 0}))
 	if tier == "quick" {
 		out = append(out, c06GatedX(1, 2, false, false, 1, true, Bounds{1, 1, 0}), c06GatedX(2, 3, true, false, 2, true, Bounds{1, 1, 0}))
